@@ -157,6 +157,12 @@ def savePointerFs (full : File → Bool) (fs : List File) (i t : Nat) : List Fil
 def savePointer (full : File → Bool) (m : Mgr) (i t : Nat) : Mgr :=
   { m with files := savePointerFs full m.files i t }
 
+/-- `SplitOff(u64::MAX)` followed by `InstallSnapshotPointerLog` (`FileStore::finalize_snapshot_installation`):
+`u64::MAX >= get_log_range_end_index()` holds for every file, the open one included (its end *is* `u64::MAX`), so
+`split_off` removes them all; `save_new_snapshot_pointer` then finds no file and writes the pointer as a first record -/
+def install (full : File → Bool) (m : Mgr) (i t : Nat) : Mgr :=
+  { m with files := (writeOne full [] (ptrEnt i t) 2).1 }
+
 /-- `begin_ready_to_load` -/
 def compact (full : File → Bool) (m : Mgr) (i t : Nat) : Mgr :=
   match m.prePtr with
